@@ -31,9 +31,6 @@ class Operator(MatrixData, BasisManaged, Saveable):
             # Set the currently used basis
             cb = self.manager.get_current_basis()
             self.set_current_basis(cb)
-            # unless it is the basis outside any context
-            if cb != 0:
-                self.manager.register_with_basis(cb, self)
                 
             self.name=name
                  
@@ -60,6 +57,13 @@ class Operator(MatrixData, BasisManaged, Saveable):
                 else:
                     self.data = numpy.zeros((dim,dim),dtype=COMPLEX)
                 self.dim = dim
+
+            # the operator is registered with the basis of the context it
+            # is created in (unless it is the basis outside any context)
+            # only when it is complete: a refused construction must not
+            # leave a half-built object behind for the context to restore
+            if cb != 0:
+                self.manager.register_with_basis(cb, self)
 
 
     def __add__(self, other):
